@@ -118,3 +118,8 @@ CASES += [
         (_DME, _RWA_OLD, "            for i in range(self.TimeAxis.length):\n                t = i*self.TimeAxis.step\n                # evolution operator\n"
                          "                Ut = numpy.diag(numpy.exp(-sgn*1j*HOmega*t))\n", 1)]},
 ]
+
+CASES += [
+    {"name": "reduced density matrix renormalised to unit trace when stored", "kind": "mutant", "rule": "C16-L", "edits": [
+        ("quantarhei/qm/liouvillespace/heom.py", "                rhot.data[indx,:,:] = ado2[0,:,:]", "                rhot.data[indx,:,:] = ado2[0,:,:]/numpy.trace(ado2[0,:,:])", 1)]},
+]
